@@ -388,7 +388,9 @@ pub fn tolerant_workload(ctx: &mut Ctx, acc: &mut Acc, judge: bool, content: boo
         let wty = w.ty();
         let mut prev: Vec<u8> = vec![0];
         let mut budget_hits = 0u32;
-        for vi in 0..ctx.n(150, 4000) {
+        // under the interpreter a decode costs a tenth of a second and more: a handful of values per pair
+        let n_values = if cfg!(miri) { 3 } else { ctx.n(150, 4000) };
+        for vi in 0..n_values {
             let mut rng = ctx.rng_for(0x701E, &reader_id, vi ^ ((pi as u64) << 40));
             let v = gen_val(&wty, &mut rng, &ctx.gen);
             let Some((_x, bytes)) = encode_case(acc, w, &v) else { continue };
@@ -397,7 +399,7 @@ pub fn tolerant_workload(ctx: &mut Ctx, acc: &mut Acc, judge: bool, content: boo
             }
             let annots = ref_annotate(&wty, &bytes).map(|(_, _, a)| a).unwrap_or_default();
             let mut inputs: Vec<(&'static str, Vec<u8>)> = vec![("valid", bytes.clone())];
-            for _ in 0..24 {
+            for _ in 0..(if cfg!(miri) { 8 } else { 24 }) {
                 if let Some((class, t)) = tamper(&bytes, &annots, &prev, &mut rng) {
                     inputs.push((class, t));
                 }
